@@ -410,6 +410,7 @@ type Profile struct {
 	Crops        []string
 	OutIntervals []int
 	TillDeep     bool
+	TillShallow  bool // also draw tillage rows of depth 0 and 1-4 cm
 	PolarProb    float64 // probability of a latitude beyond the polar circles
 	ZeroRadProb  float64 // probability of a weather series without measured radiation (sunshine hours instead)
 	Permanent    float64 // probability of a block of permanent-crop cuts (grass / alfalfa) early in the rotation
@@ -433,6 +434,7 @@ func profileFor(prop string) Profile {
 		p.HeavyRain = 0.6
 		p.Stones = 0.5
 	case "C02", "C07":
+		p.TillShallow = true
 		p.HeavyRain = 0.6
 		p.Stones = 0.4
 		p.MinLayers = 2
@@ -457,6 +459,7 @@ func profileFor(prop string) Profile {
 		p.Inject = 0
 		p.Years = [2]int{1, 4}
 	case "C10":
+		p.TillShallow = true
 		p.FertMax = 14
 		p.TillMax = 10
 		p.IrrMax = 12
@@ -1143,7 +1146,18 @@ func genEvents(sc *Scenario, r *Rng, p Profile) {
 		if maxDepth < 5 {
 			maxDepth = 5
 		}
-		sc.Till = append(sc.Till, TillEvent{DateOfZeit(z), r.Range(5, maxDepth), r.Range(1, 2)})
+		depth := r.Range(5, maxDepth)
+		if p.TillShallow {
+			// a row with working depth 0 is valid input (nothing is mixed, nothing is logged, the schedule goes on);
+			// 1-4 cm rounds to zero mixed layers
+			switch u := r.F(); {
+			case u < 0.08:
+				depth = 0
+			case u < 0.13:
+				depth = r.Range(1, 4)
+			}
+		}
+		sc.Till = append(sc.Till, TillEvent{DateOfZeit(z), depth, r.Range(1, 2)})
 	}
 	// irrigation: one per day
 	sc.IrrFlag = r.Bool(0.6) || p.IrrMax > 6
